@@ -15,7 +15,7 @@ Definition exn_eqb (a b : exn) : bool :=
   match a, b with
   | EUsage, EUsage | EInvalidOp, EInvalidOp | EDup, EDup | EUnknownName, EUnknownName | ECtor, ECtor
   | EOSError, EOSError | EConnRefused, EConnRefused | EAssert, EAssert | ENoActive, ENoActive
-  | EValue, EValue | EDelivery, EDelivery => true
+  | EValue, EValue | EDelivery, EDelivery | EBase, EBase => true
   | _, _ => false          (* EOther (an exception class the model never produces) matches nothing *)
   end.
 
@@ -53,6 +53,10 @@ Definition check_case (c : case) : bool :=
 (* against the transcription of the tree as it is (a failed start leaves its leftovers) *)
 Definition check_case_cur (c : case) : bool :=
   let '(_, _, o) := c in list_eqb obs_eqb (model_out Current c) o.
+
+(* against the transcription of the tree as it is now *)
+Definition check_case_tree (c : case) : bool :=
+  let '(_, _, o) := c in list_eqb obs_eqb (model_out Tree c) o.
 
 (* index of the first differing step (for reports) *)
 Fixpoint first_diff (a b : list obs) (i : nat) : option nat :=
